@@ -23,3 +23,51 @@ func ZZ_C12_N3_WrittenValueIsNearest() {
 	zzv.Assert(zzNearestOut(e.keys, e.vals, req, w), "N3.device_shows_map_output_of_nearest_key")
 	zzv.Assert(*e.c.lastSetPwm == req, "N3.request_remembered")
 }
+
+//zzv:bound N3p = the same through the real updateDistinctPwmValues on general maps with 1..4 (thorough 1..6) entries whose outputs may repeat (plateaus, constant maps, non-monotonic maps): the device ends at the map output of the nearest *supported* input, where the supported inputs are the first key of each run of equal outputs
+
+func ZZ_C12_N3p_PlateauMaps() {
+	maxN := 4
+	if zzv.Thorough() {
+		maxN = 6
+	}
+	n := zzv.Choice("entries", maxN) + 1
+	e := zzNewFan(zzKindHwmon, false, zzv.Bool("pwmReadable"), true, true, zzv.Int("devPwm"), 1, 0)
+	e.zzController(zzLoop(0), 0, 1)
+	keys := make([]int, n)
+	outs := make([]int, n)
+	m := map[int]int{}
+	for i := 0; i < n; i++ {
+		keys[i] = zzRange("mapKey", 0, 255)
+		outs[i] = zzRange("mapOut", 0, 255)
+		if i > 0 {
+			zzv.Assume(keys[i-1] < keys[i])
+		}
+		m[keys[i]] = outs[i]
+	}
+	e.c.pwmMap = m
+	e.c.updateDistinctPwmValues() // the real first-key-of-each-run extraction
+	req := zzRange("request", -50, 305)
+	err := e.c.setPwm(req)
+	zzv.Assert(err == nil, "N3p.write_succeeds")
+	w := zzv.FilePeek(e.pwmPath)
+	zzv.Record("device", w)
+	// oracle: entry i is a supported input iff it starts a run; the device shows the output of a nearest supported input
+	ok := false
+	for i := 0; i < n; i++ {
+		sup := true
+		if i > 0 {
+			sup = outs[i] != outs[i-1]
+		}
+		nearest := sup
+		for j := 0; j < n; j++ {
+			supJ := true
+			if j > 0 {
+				supJ = outs[j] != outs[j-1]
+			}
+			nearest = zzv.And(nearest, zzv.Implies(supJ, zzv.AbsInt(keys[i]-req) <= zzv.AbsInt(keys[j]-req)))
+		}
+		ok = zzv.Or(ok, zzv.And(nearest, w == outs[i]))
+	}
+	zzv.Assert(ok, "N3p.device_shows_output_of_nearest_supported_input")
+}
